@@ -31,14 +31,14 @@ GRID = dict(
     lr=[-e, 0.0, 0.01, nan],
     beta1=[-e, 0.0, 0.5, 1 - e, 1.0, nan],
     beta2=[0.0, e, 0.5, 1.0, 1 + e, -e, nan],
-    beta3=[-1.0, -e, 0.0, 0.5, 1 - e, 1.0, nan, -1, -1 - e],
-    epsilon=[0.0, -e, 1e-300, 1e-12, nan],
+    beta3=[-1.0, -e, 0.0, 0.5, 1 - e, 1.0, nan, -1, -1 - e, math.nextafter(-1.0, 0.0), math.nextafter(-1.0, -2.0), -1 + 1e-12, -1 - 1e-12, -0.999],
+    epsilon=[0.0, -e, 1e-300, 5e-324, 1e-50, 1e-12, nan],
     momentum=[-e, 0.0, 0.5, 1 - e, 1.0, nan],
     dampening=[-e, 0.0, 0.5, 1 - e, 1.0, nan],
     weight_decay=[-e, 0.0, 0.1, nan],
     max_preconditioner_dim=[0, 1, 2, 1024, -1],
     precondition_frequency=[0, 1, 2, 5, -1],
-    start_preconditioning_step=[-2, -1, 0, 1, 2, 4, 5, 6, 10**6],
+    start_preconditioning_step=[-2, -1, 0, 1, 2, 4, 5, 6, 10**6, -1.0],
     inv_root_override=[-1, 0, 1, 4, [0, 1], [2, -1], [], (3, 0, 2), (-1,)],
     ignored_dims=[[], [0], [0, 1], [5]],
 )
